@@ -22,9 +22,17 @@ OVERRIDES = [('auth_enable', True, 'pecan'),
              ('validation_mode', 'enabled', 'api')]
 NAME = 'r1'
 
+# project ids look like keystone ids (the REST `project_id` filter only
+# accepts uuid-like values); the labels A / B / M / ADM appear in reports
+PID = {'A': 'aaaaaaaa-aaaa-4aaa-8aaa-aaaaaaaaaaaa',
+       'B': 'bbbbbbbb-bbbb-4bbb-8bbb-bbbbbbbbbbbb',
+       'M': 'cccccccc-cccc-4ccc-8ccc-cccccccccccc',
+       'ADM': 'dddddddd-dddd-4ddd-8ddd-dddddddddddd',
+       'Z': 'eeeeeeee-eeee-4eee-8eee-eeeeeeeeeeee'}
 CALLERS = {
-    'A': M.Caller('A'), 'B': M.Caller('B'), 'M': M.Caller('M'),
-    'ADM': M.Caller('ADM', admin=True),
+    'A': M.Caller(PID['A'], label='A'), 'B': M.Caller(PID['B'], label='B'),
+    'M': M.Caller(PID['M'], label='M'),
+    'ADM': M.Caller(PID['ADM'], admin=True, label='ADM'),
 }
 
 
@@ -118,10 +126,10 @@ class Setup(object):
             rid = self.ids['A']
             tx(lambda: db_api.create_resource_member(
                 {'resource_id': rid, 'resource_type': 'workflow',
-                 'member_id': 'M'}), 'A')
+                 'member_id': PID['M']}), 'A')
             if self.share != 'pending':
                 tx(lambda: db_api.update_resource_member(
-                    rid, 'workflow', 'M', {'status': self.share}), 'M')
+                    rid, 'workflow', PID['M'], {'status': self.share}), 'M')
         self.snap = env.raw_conn().serialize()
         self.pre = M.dump(env.raw_conn())
         self.ids_n = env.Ids.n
@@ -389,7 +397,7 @@ def _new_vals(s, caller, forge):
     if t == 'action_ex':
         v.update(name=NAME, task_execution_id=a['task_ex'], spec={})
     if forge:
-        v['project_id'] = 'A'
+        v['project_id'] = PID['A']
     return v
 
 
@@ -408,8 +416,9 @@ def db_ops(s):
         op(fn, '', lambda c: ((), {}), 'many', _all)
         op(fn, 'name=eq', lambda c: ((), {'name': {'eq': NAME}}), 'many',
            lambda s_, pre: rows(pre, s.table, lambda r: r['name'] == NAME))
-        op(fn, 'project_id=A', lambda c: ((), {'project_id': 'A'}), 'many',
-           _f('project_id', 'A'))
+        op(fn, 'project_id=A', lambda c: ((), {'project_id': PID['A']}),
+           'many',
+           _f('project_id', PID['A']))
         op(fn, 'id=in', lambda c: ((), {'id': {'in': sorted(
             s.ids.values())}}), 'many',
            lambda s_, pre: rows(pre, s.table,
@@ -428,7 +437,7 @@ def db_ops(s):
         op(fn, '', lambda c: ((), {}))
         op(fn, 'name', lambda c: ((), {'name': NAME}))
         op(fn, 'id', lambda c: ((), {'id': rid}))
-        op(fn, 'project_id=A', lambda c: ((), {'project_id': 'A'}))
+        op(fn, 'project_id=A', lambda c: ((), {'project_id': PID['A']}))
 
     def forge(fn):
         op(fn, 'same-name', lambda c: ((_new_vals(s, c, False),), {}))
@@ -480,18 +489,19 @@ def db_ops(s):
         forge('create_workflow_definition')
         if s.share != 'none':
             op('get_resource_member', 'M',
-               lambda c: ((rid, 'workflow', 'M'), {}))
+               lambda c: ((rid, 'workflow', PID['M']), {}))
             op('get_resource_member', 'self',
                lambda c: ((rid, 'workflow', CALLERS[c].project), {}))
             op('get_resource_members', '', lambda c: ((rid, 'workflow'), {}))
             op('update_resource_member', 'M,accept',
-               lambda c: ((rid, 'workflow', 'M', {'status': 'accepted'}),
+               lambda c: ((rid, 'workflow', PID['M'],
+                           {'status': 'accepted'}),
                           {}))
             op('update_resource_member', 'self,accept',
                lambda c: ((rid, 'workflow', CALLERS[c].project,
                            {'status': 'accepted'}), {}))
             op('delete_resource_member', 'M',
-               lambda c: ((rid, 'workflow', 'M'), {}))
+               lambda c: ((rid, 'workflow', PID['M']), {}))
     elif t == 'action':
         op('get_action_definition_by_id', 'id', lambda c: ((rid,), {}),
            'one', _by_id)
